@@ -39,6 +39,7 @@ type Val struct {
 	Fn   *ssa.Function
 	Glob string // provenance: value loaded from this package-level variable
 	Sort string // KArr: full SMT sort
+	Inner *Val  // KIface: the concrete value wrapped by MakeInterface (if known)
 	Iter *iterInfo
 }
 
